@@ -11,8 +11,11 @@ Anchors: `pkg/obitools/obiannotate/obiannotate.go` (`CLIAnnotationWorker`, the `
 
 Every worker maps one record to one record or fails; `ChainWorkers` / `SeqToSliceWorker(…, false)`
 turn a failure into "record dropped (warning)".  A Go panic (type assertion in `SetAttribute` on the
-reserved keys) is the outcome `panic`.  The taxonomy, LCA, aho-corasick and `--pattern` workers are
-not modelled (C14/C17 territory): the model covers option sets that do not request them.
+reserved keys) is the outcome `panic`.  The taxonomy (`--with-taxon-at-rank`, `--taxonomic-path`,
+`--taxonomic-rank`, `--scientific-name`), `--aho-corasick` and `--pattern` workers are modelled with
+the verdicts of obitax / ahocorasick / obiapat as oracle parameters (what the library found is data,
+which attributes are then set, under which names and where in the chain is the model).  `--add-lca-in`
+is not modelled.
 -/
 namespace ObiVerif.Annotate
 open ObiVerif.Grep
@@ -21,6 +24,8 @@ inductive Outcome where
   | ok (r : Rec)
   | dropped
   | panic
+  /-- `log.Fatalf` inside a worker (taxonomic workers on a taxid the taxonomy does not know) -/
+  | fatal
   deriving DecidableEq, Repr, Inhabited
 
 def Outcome.bind (x : Outcome) (f : Rec → Outcome) : Outcome :=
@@ -28,6 +33,7 @@ def Outcome.bind (x : Outcome) (f : Rec → Outcome) : Outcome :=
   | .ok r => f r
   | .dropped => .dropped
   | .panic => .panic
+  | .fatal => .fatal
 
 /-- an edit = a `SeqWorker` returning one record -/
 abbrev Edit := Rec → Outcome
@@ -71,9 +77,30 @@ def renameAttribute (new old : String) (r : Rec) : Outcome :=
   | some v => (setAttribute new v r).bind fun r => .ok (deleteAttribute old r)
   | none => .ok r
 
+/-- what `ApatPattern.BestMatch` reports: start, end (0-based, half open), number of errors -/
+structure Hit where
+  start : Nat
+  stop : Nat
+  nerr : Int
+  deriving DecidableEq, Repr, Inhabited
+
 structure Oracles where
   /-- `obiseq.Expression(e)(record)`; `none` = evaluation error -/
   evalExpr : String → Rec → Option AVal
+  /-- `taxonomy.Taxon(sequence.Taxid())` then `TaxonAtRank(rank)`: `none` = the taxid is not in the
+  taxonomy, `some none` = no ancestor at that rank, `some (some (taxid, name))` -/
+  taxonAtRank : String → Rec → Option (Option (Int × String)) := fun _ _ => none
+  /-- `Taxon(Taxid()).Path().String()`; `none` = unknown taxid (`log.Fatalf`) -/
+  taxPath : Rec → Option String := fun _ => none
+  /-- `Taxon(Taxid()).Rank()` -/
+  taxRank : Rec → Option String := fun _ => none
+  /-- `Taxon(Taxid()).ScientificName()` -/
+  sciName : Rec → Option String := fun _ => none
+  /-- number of matches of the aho-corasick automaton on the sequence and on its reverse complement -/
+  aho : Rec → Nat × Nat := fun _ => (0, 0)
+  /-- `pat.BestMatch(seq, 0, len)` of the pattern (`true`) or of its reverse complement (`false`) compiled
+  with the given error count / indel flag, filtered by `matched && start >= 0 && end <= len` -/
+  bestMatch : String → Int → Bool → Bool → Rec → Option Hit := fun _ _ _ _ _ => none
 
 /-- `ClearAllAttributesWorker` -/
 def clearAll : Edit := fun r => .ok { r with attrs := [] }
@@ -138,6 +165,72 @@ def cutSequence (from0 to0 : Int) : Edit := fun r =>
     | some s => .ok s
     | none => .dropped
 
+/-! ### workers driven by a library (obitax, ahocorasick, obiapat) -/
+
+/-- a sequence of `SetAttribute(key, value)` -/
+def setAttrs (kvs : List (String × AVal)) : Edit := fun r =>
+  kvs.foldl (fun acc kv => acc.bind (setAttribute kv.1 kv.2)) (.ok r)
+
+/-- `Taxonomy.SetTaxonAtRank(sequence, rank)` -/
+def taxonAtRankAttrs (O : Oracles) (rank : String) (r : Rec) : List (String × AVal) :=
+  match O.taxonAtRank rank r with
+  | none => []
+  | some none => [(rank ++ "_taxid", .int (-1)), (rank ++ "_name", .str "NA")]
+  | some (some (t, name)) => [(rank ++ "_taxid", .int t), (rank ++ "_name", .str name)]
+
+/-- `AddTaxonAtRankWorker(taxonomy, ranks...)` -/
+def addTaxonAtRank (O : Oracles) (ranks : List String) : Edit := fun r =>
+  ranks.foldl (fun acc rank => acc.bind fun r => setAttrs (taxonAtRankAttrs O rank r) r) (.ok r)
+
+/-- a worker that sets one attribute to what the taxonomy says, and stops the program when the taxid
+is unknown (`MakeSetPathWorker`, `AddTaxonRankWorker`, `AddScientificNameWorker`) -/
+def setFromTaxonomy (key : String) (f : Rec → Option String) : Edit := fun r =>
+  match f r with
+  | some s => setAttribute key (.str s) r
+  | none => .fatal
+
+/-- `obicorazick.AhoCorazickWorker("aho_corasick", patterns)` -/
+def ahoCorasickAttrs (O : Oracles) (r : Rec) : List (String × AVal) :=
+  let m := O.aho r
+  if m.1 + m.2 > 0 then
+    [("aho_corasick", .int (m.1 + m.2 : Nat)), ("aho_corasick_Fwd", .int m.1), ("aho_corasick_Rev", .int m.2)]
+  else []
+
+def ahoCorasick (O : Oracles) : Edit := fun r => setAttrs (ahoCorasickAttrs O r) r
+
+/-- complement of a nucleotide (`acgt`; the cases exercise no other letter) -/
+def compl (b : UInt8) : UInt8 :=
+  if b = 97 then 116 else if b = 116 then 97 else if b = 99 then 103 else if b = 103 then 99 else b
+
+def asString (l : List UInt8) : String := String.ofList (l.map fun b => Char.ofNat b.toNat)
+
+/-- the slot names of `MatchPatternWorker(pattern, name, …)` -/
+def patternSlots (name : String) : String × String × String × String :=
+  let slot := if name ≠ "pattern" ∧ name ≠ "" then name ++ "_pattern" else "pattern"
+  let name := if name ≠ "pattern" ∧ name ≠ "" then name else "pattern"
+  (slot, name ++ "_match", name ++ "_error", name ++ "_location")
+
+/-- `MatchPatternWorker`: the direct pattern first, its reverse complement when the direct one does
+not match (whatever `--only-forward`: the `bothStrand` argument is not used by the worker) -/
+def matchPatternAttrs (O : Oracles) (pattern name : String) (errmax : Int) (indel : Bool) (r : Rec) :
+    List (String × AVal) :=
+  let s := patternSlots name
+  match O.bestMatch pattern errmax indel true r with
+  | some h =>
+    [(s.1, .str pattern), (s.2.1, .str (asString ((r.seq.drop h.start).take (h.stop - h.start)))),
+     (s.2.2.1, .int h.nerr), (s.2.2.2, .str (toString (h.start + 1) ++ ".." ++ toString h.stop))]
+  | none =>
+    match O.bestMatch pattern errmax indel false r with
+    | some h =>
+      [(s.1, .str pattern),
+       (s.2.1, .str (asString (((r.seq.drop h.start).take (h.stop - h.start)).reverse.map compl))),
+       (s.2.2.1, .int h.nerr),
+       (s.2.2.2, .str ("complement(" ++ toString (h.start + 1) ++ ".." ++ toString h.stop ++ ")"))]
+    | none => []
+
+def matchPattern (O : Oracles) (pattern name : String) (errmax : Int) (indel : Bool) : Edit := fun r =>
+  setAttrs (matchPatternAttrs O pattern name errmax indel r) r
+
 /-- the option globals of `obiannotate/options.go` after parsing (modelled subset) -/
 structure AnnotOpts where
   clearAll : Bool := false
@@ -151,7 +244,29 @@ structure AnnotOpts where
   evalAttribute : List (String × String) := []
   /-- `CLICut()` -/
   cut : Int × Int := (0, 0)
+  taxonAtRank : List String := []
+  taxonomicPath : Bool := false
+  withRank : Bool := false
+  withScientificName : Bool := false
+  /-- `CLIHasAhoCorasick()`: the file named by `--aho-corasick` exists -/
+  ahoCorasick : Bool := false
+  pattern : String := ""
+  patternName : String := "pattern"
+  /-- `obigrep.CLIPatternError()`, `CLIPatternInDels()` (options shared with obigrep) -/
+  patternError : Int := 0
+  patternIndel : Bool := false
   deriving Inhabited
+
+/-- the attribute names the library-driven workers may set, from the options alone -/
+def libraryKeys (o : AnnotOpts) : List String :=
+  o.taxonAtRank.flatMap (fun r => [r ++ "_taxid", r ++ "_name"]) ++
+  (if o.taxonomicPath then ["taxonomic_path"] else []) ++
+  (if o.withRank then ["taxonomic_rank"] else []) ++
+  (if o.withScientificName then ["scienctific_name"] else []) ++
+  (if o.ahoCorasick then ["aho_corasick", "aho_corasick_Fwd", "aho_corasick_Rev"] else []) ++
+  (if o.pattern ≠ "" then
+    [(patternSlots o.patternName).1, (patternSlots o.patternName).2.1, (patternSlots o.patternName).2.2.1,
+     (patternSlots o.patternName).2.2.2] else [])
 
 /-- `CLIAnnotationWorker`: one worker per requested edit, in the order of the `if` cascade;
 `[]` = the nil worker -/
@@ -161,9 +276,15 @@ def requestedEdits (O : Oracles) (o : AnnotOpts) : List Edit :=
   (if o.toBeDeleted ≠ [] then [deleteAttributes o.toBeDeleted] else []) ++
   (if o.keepOnly ≠ [] then [keepAttributes o.keepOnly] else []) ++
   (if o.toBeRenamed ≠ [] then [renameAttributes o.toBeRenamed] else []) ++
+  (if o.taxonAtRank ≠ [] then [addTaxonAtRank O o.taxonAtRank] else []) ++
+  (if o.taxonomicPath then [setFromTaxonomy "taxonomic_path" O.taxPath] else []) ++
+  (if o.withRank then [setFromTaxonomy "taxonomic_rank" O.taxRank] else []) ++
+  (if o.withScientificName then [setFromTaxonomy "scienctific_name" O.sciName] else []) ++
   (if o.setSeqLength then [addSeqLength] else []) ++
   (if o.evalAttribute ≠ [] then [evalAttributes O o.evalAttribute] else []) ++
-  (if o.cut.1 ≠ 0 ∧ o.cut.2 ≠ 0 then [cutSequence o.cut.1 o.cut.2] else [])
+  (if o.ahoCorasick then [ahoCorasick O] else []) ++
+  (if o.cut.1 ≠ 0 ∧ o.cut.2 ≠ 0 then [cutSequence o.cut.1 o.cut.2] else []) ++
+  (if o.pattern ≠ "" then [matchPattern O o.pattern o.patternName o.patternError o.patternIndel] else [])
 
 /-- the chained worker applied to one record -/
 def annotate (O : Oracles) (o : AnnotOpts) : Edit := applyAll (requestedEdits O o)
@@ -186,6 +307,7 @@ def pipeline (G : Grep.Oracles) (g : GrepOpts) (O : Oracles) (o : AnnotOpts) (r 
     | .ok r => .out r
     | .dropped => .absent
     | .panic => .panic
+    | .fatal => .fatal
   | some p =>
     match p r with
     | none => .fatal
@@ -195,5 +317,6 @@ def pipeline (G : Grep.Oracles) (g : GrepOpts) (O : Oracles) (o : AnnotOpts) (r 
       | .ok r => .out r
       | .dropped => .absent
       | .panic => .panic
+      | .fatal => .fatal
 
 end ObiVerif.Annotate
